@@ -728,3 +728,54 @@ Proof.
   - apply find_some in F as [F1 F2]. apply andb_true_iff in F2 as [F2 F3]. auto.
   - split; [reflexivity|]. right. right. intros o Ho. exact (find_none _ _ F o Ho).
 Qed.
+
+(* ================================================================== *)
+(* hwloc_bitmap_singlify_per_core                                      *)
+
+Lemma singlify_core_outside which s c i : mem i (dcs c) = false -> mem i (singlify_core which s c) = mem i s.
+Proof.
+  intros H. unfold singlify_core. destruct (covering_pred s c); [|reflexivity].
+  destruct (nth_error _ _) as [pu|] eqn:E.
+  - rewrite mem_add, mem_diff, H. cbn [negb]. rewrite andb_true_r.
+    destruct (N.eqb_spec i pu) as [->|]; [|reflexivity].
+    apply nth_error_In in E. unfold elements in E. destruct (bs_last _); [|contradiction].
+    unfold bs_elements_below in E. apply filter_In in E as [_ E]. rewrite mem_inter, H in E. discriminate.
+  - rewrite mem_diff, H. cbn [negb]. apply andb_true_r.
+Qed.
+
+Lemma singlify_core_inside which s c i j :
+  mem i (singlify_core which s c) = true -> mem i (dcs c) = true ->
+  mem j (singlify_core which s c) = true -> mem j (dcs c) = true -> i = j.
+Proof.
+  unfold singlify_core. destruct (covering_pred s c) eqn:Ec.
+  - destruct (nth_error _ _) as [pu|].
+    + rewrite !mem_add, !mem_diff. intros Hi Ci Hj Cj. rewrite Ci in Hi. rewrite Cj in Hj.
+      cbn [negb] in *. rewrite andb_false_r, orb_false_r in Hi, Hj. apply N.eqb_eq in Hi, Hj. congruence.
+    + rewrite !mem_diff. intros Hi Ci. rewrite Ci in Hi. cbn [negb] in Hi. rewrite andb_false_r in Hi. discriminate.
+  - intros Hi Ci. exfalso. unfold covering_pred in Ec. rewrite intersects_false in Ec. rewrite (Ec i Hi) in Ci. discriminate.
+Qed.
+
+(* for ALL lists of cores with pairwise disjoint cpusets, ALL sets and ALL which:
+   at most one PU of every core survives, and nothing outside the cores changes *)
+Lemma singlify_per_core_at_most_one_l which : forall cores s,
+  pairwise_disjoint (map dcs cores) = true ->
+  (forall c i j, In c cores ->
+     mem i (bitmap_singlify_per_core cores s which) = true -> mem i (dcs c) = true ->
+     mem j (bitmap_singlify_per_core cores s which) = true -> mem j (dcs c) = true -> i = j) /\
+  (forall i, (forall c, In c cores -> mem i (dcs c) = false) -> mem i (bitmap_singlify_per_core cores s which) = mem i s).
+Proof.
+  unfold bitmap_singlify_per_core.
+  induction cores as [|c0 tl IH]; intros s PD; cbn [fold_left].
+  - split; [intros c i j []|reflexivity].
+  - cbn [map pairwise_disjoint] in PD. apply andb_true_iff in PD as [PD1 PD2].
+    destruct (IH (singlify_core which s c0) PD2) as [IH1 IH2]. split.
+    + intros c i j [<-|Hc] Hi Ci Hj Cj; [|eapply IH1; eauto].
+      (* bits of c0 are not touched by the later cores *)
+      assert (O : forall k, mem k (dcs c0) = true -> forall c', In c' tl -> mem k (dcs c') = false).
+      { intros k Hk c' Hc'. rewrite forallb_forall in PD1. pose proof (PD1 (dcs c') (in_map dcs _ _ Hc')) as Dj.
+        apply negb_true_iff in Dj. rewrite intersects_false in Dj. auto. }
+      rewrite IH2 in Hi by (apply O; exact Ci). rewrite IH2 in Hj by (apply O; exact Cj).
+      eapply singlify_core_inside; eauto.
+    + intros i Hout. rewrite IH2 by (intros c Hc; apply Hout; now right).
+      apply singlify_core_outside. apply Hout. now left.
+Qed.
